@@ -96,13 +96,16 @@ func (p *c02) Init(tier string) {
 		}
 	}
 	// depth 2: representative set x leaves, both sides
-	var rep []Expr
+	// (operands that are not plain binary nodes come first, so that the quick tier's cut keeps them:
+	// unary over a column, CASE, and a nested path)
+	rep := []Expr{Un{"-", Col{"a"}}, Un{"~", Col{"d"}}, Un{"-", Col{"o.p.q"}},
+		Case{Whens: []When{{conds[0], Lit{V: 100.0}}}, Else: Lit{V: 200.0}},
+		Case{Whens: []When{{conds[3], Col{"a"}}}, Else: Col{"d"}}}
 	for i, e := range depth1 {
 		if i%12 == 0 {
 			rep = append(rep, e)
 		}
 	}
-	rep = append(rep, Un{"-", Col{"a"}}, Un{"~", Col{"d"}})
 	nrep := len(rep)
 	if tier == "quick" && nrep > 40 {
 		rep = rep[:40]
